@@ -73,7 +73,8 @@ def op_strategy(draw):
         ['newclass'] * 3 + ['newinst'] * 4 + ['classImplements'] * 4 +
         ['classImplementsOnly'] * 3 + ['classImplementsFirst'] +
         ['directlyProvides'] * 5 + ['alsoProvides'] * 3 +
-        ['noLongerProvides'] * 2 + ['forget'] + ['query'] * 2))
+        ['noLongerProvides'] * 2 + ['forget'] + ['query'] * 2 +
+        ['sameas'] * 2))
     chk = draw(st.integers(0, 9)) < 7
     if k == 'newclass':
         deco = draw(st.sampled_from([None, None, 'impl', 'impl', 'only']))
@@ -106,6 +107,12 @@ def op_strategy(draw):
     if k == 'noLongerProvides':
         return [k, draw(st.sampled_from(['o', 'o', 'o', 'k'])),
                 draw(IDX), draw(IDX), chk]
+    if k == 'sameas':
+        # a new instance of the class of the instance declared last gets
+        # the very same declaration call: the two share the cache key of
+        # instance declarations, whatever happened to the class in between
+        # (seeds C01h, C02h)
+        return ['sameas', chk]
     if k == 'forget':
         return ['forget', draw(IDX), chk]
     return ['query', chk]
@@ -132,6 +139,27 @@ def case_strategy(draw):
     for _ in range(draw(st.integers(1, 3))):
         ops.append(['newinst', draw(IDX), draw(st.booleans())])
     ops += draw(st.lists(op_strategy(), min_size=3, max_size=36))
+    if draw(st.integers(0, 3)) == 0 and nif >= 2:
+        # recipe: the class implements x; an instance declares (x, y) - x is
+        # left out of the shared declaration as redundant; the class is
+        # re-declared to implement only y; a second instance declares
+        # (x, y) again: it must provide x (seed C01h).  Index -1 = the
+        # instance created last.
+        c = draw(IDX)
+        x = draw(st.integers(0, nif - 1))
+        y = draw(st.integers(0, nif - 1).filter(lambda v: v != x))
+        extra = draw(st.sampled_from([[], [], [['i', draw(IDX)]]]))
+        recipe = [['classImplements', c, [['i', x]], True],
+                  ['newinst', c, False],
+                  [draw(st.sampled_from(['directlyProvides',
+                                         'alsoProvides'])), 'o', -1,
+                   [['i', x], ['i', y]], True],
+                  ['classImplementsOnly', c, [['i', y]] + extra, True],
+                  ['sameas', True]]
+        cut = draw(st.integers(0, len(ops)))
+        # no class may be created in between (class operands are taken
+        # modulo the number of classes): keep the recipe contiguous
+        ops = ops[:cut] + recipe + ops[cut:]
     return {'ibases': ibases, 'ops': ops,
             'meta_iface': draw(st.one_of(st.none(),
                                          st.integers(0, nif - 1),
@@ -418,9 +446,21 @@ def run_case(case, cfg, out):
             meta_box.append(Meta)
         return meta_box[0]
 
+    last_inst_decl = [None]
     for step, op in enumerate(case['ops']):
         kind = op[0]
         chk = op[-1]
+        if kind == 'sameas':
+            if last_inst_decl[0] is None:
+                continue
+            kind0, t0, terms = last_inst_decl[0]
+            c0 = M.insts[t0]['cls']
+            rinsts.append(rclasses[c0]())
+            M.insts.append({'cls': c0, 'must': set(), 'may': set()})
+            nlive = sum(1 for ob in rinsts if ob is not None)
+            op = [kind0, 'o', nlive - 1, terms, chk]
+            kind = kind0
+            out.tag('same_declaration_on_new_instance')
         if kind == 'newclass':
             bidx = []
             for b in op[1]:
@@ -554,6 +594,8 @@ def run_case(case, cfg, out):
                 rec = M.insts[t]
                 mk, Mk = 'must', 'may'
                 ccls = rec['cls']
+                if kind != 'noLongerProvides':
+                    last_inst_decl[0] = (kind, t, op[3])
                 if _anc(ccls) & narrowed:
                     nt['b'] = True
 
